@@ -91,6 +91,12 @@ Theorem C11_scope_hier : forall h, hier_ok h = true ->
 Proof. exact scope_hier_walk. Qed.
 Print Assumptions C11_scope_hier.
 
+(** … and the positions of a layout have pairwise distinct paths: every exposed
+    resource is enumerated, hence answered for, once. *)
+Theorem C11_hier_each_once : forall h, hier_ok h = true -> NoDup (map (pos_rest h) (all_pos h)).
+Proof. exact all_pos_paths_nodup. Qed.
+Print Assumptions C11_hier_each_once.
+
 (** ** Status *)
 
 (** Every PROPFIND on the three servers is answered 207 (Ok) or refused with 400
